@@ -346,6 +346,77 @@ def judge_static(case):
     return {"nontrivial": "module" in statuses, "classes": cls}
 
 
+# ---- (c') names deleted by an except clause -------------------------------------------------------------------
+
+def _own_nodes(func):
+    """nodes of a function body that belong to its own scope (nested functions, lambdas and classes excluded)"""
+    out = []
+    stack = list(ast.iter_child_nodes(func))
+    while stack:
+        n = stack.pop()
+        out.append(n)
+        if isinstance(n, (ast.FunctionDef, ast.AsyncFunctionDef, ast.Lambda, ast.ClassDef)):
+            continue
+        stack.extend(ast.iter_child_nodes(n))
+    return out
+
+
+_HANDLERS = {}
+
+
+def handler_scan(modname, path):
+    """[(qualified function, name, handler line, [lines where the name is loaded after the handler without
+    having been assigned again])]: `except E as name` deletes the name when the handler ends, so such a load
+    raises UnboundLocalError (a NameError) exactly when the exception was caught"""
+    if modname in _HANDLERS:
+        return _HANDLERS[modname]
+    with open(path) as f:
+        tree = ast.parse(f.read())
+    found = []
+
+    def visit(scope, qual):
+        nodes = _own_nodes(scope)
+        for h in nodes:
+            if isinstance(h, ast.ExceptHandler) and h.name:
+                end = h.end_lineno
+                stores = sorted(n.lineno for n in nodes if isinstance(n, ast.Name) and n.id == h.name
+                                and isinstance(n.ctx, ast.Store) and n.lineno > end)
+                loads = sorted(n.lineno for n in nodes if isinstance(n, ast.Name) and n.id == h.name
+                               and isinstance(n.ctx, ast.Load) and n.lineno > end)
+                # (a load inside a later handler binding the same name refers to that handler's own binding)
+                others = [(o.lineno, o.end_lineno) for o in nodes if isinstance(o, ast.ExceptHandler) and o.name == h.name and o is not h]
+                loads = [ln for ln in loads if not any(a <= ln <= b for a, b in others)]
+                bad = [ln for ln in loads if not any(st_ < ln for st_ in stores)]
+                found.append((qual, h.name, h.lineno, bad))
+        for n in nodes:
+            if isinstance(n, (ast.FunctionDef, ast.AsyncFunctionDef)):
+                visit(n, (qual + "." if qual else "") + n.name)
+            elif isinstance(n, ast.ClassDef):
+                visit(n, (qual + "." if qual else "") + n.name)
+    visit(tree, "")
+    _HANDLERS[modname] = found
+    return found
+
+
+def handler_cases(tier):
+    for modname, path in lena_modules():
+        for qual, name, line, bad in handler_scan(modname, path):
+            yield {"module": modname, "qual": qual, "name": name}
+
+
+def judge_handler(case):
+    path = dict(lena_modules()).get(case["module"])
+    if path is None:
+        return {"nontrivial": False, "classes": ["module-gone"]}
+    mine = [h for h in handler_scan(case["module"], path) if h[0] == case["qual"] and h[1] == case["name"]]
+    for qual, name, line, bad in mine:
+        if bad:
+            raise Violation("name-bound-by-except-clause-used-after-it:%s:%s" % (case["module"], qual),
+                            "%s, %s: `except ... as %s` (line %d) deletes %s when the handler ends, line %s loads it afterwards: "
+                            "UnboundLocalError whenever the exception was caught" % (case["module"], qual, name, line, name, bad))
+    return {"nontrivial": bool(mine), "classes": ["handler-name-not-used-later"]}
+
+
 _CHAINS = {}
 
 
@@ -521,6 +592,9 @@ CHECKS = [
     Check("static_names", judge_static, cases=static_cases, exhaustive=True,
           rule="every (function / method / class body / lambda / comprehension, global name it loads) pair in lena/: the name is defined in the module namespace after import, or is a builtin, or sits in code dead under the "
                "running Python version. Non-trivial = resolved in the module namespace (i.e. it could be missing)."),
+    Check("handler_names", judge_handler, cases=handler_cases, exhaustive=True, shards=1,
+          rule="every `except E as name` clause in lena/: the name (deleted by Python 3 when the handler ends) is not loaded later in the same scope without having been assigned again "
+               "(it would be an UnboundLocalError, a NameError, on exactly the inputs that make the handler run). All cases non-trivial."),
     Check("module_chains", judge_chain, cases=chain_cases, exhaustive=True, shards=9,
           rule="every attribute chain rooted at the name lena (lena.flow.get_data_context ...) in every module: resolves by getattr in an interpreter that imported only the module's own subpackage "
                "(plus the imports made inside the same function). Non-trivial = the chain leaves the module's own subpackage."),
